@@ -386,3 +386,89 @@ pub fn http_announce_path(hash: &[u8; 20], peer_id: &[u8; 20], port: u16, left: 
 pub fn http_get(path: &str, extra_headers: &str) -> Vec<u8> {
     format!("GET {} HTTP/1.1\r\nHost: t\r\n{}\r\n", path, extra_headers).into_bytes()
 }
+
+// ---------------------------------------------------------------------------------------------
+// Minimal WebSocket client (tungstenite over a blocking TcpStream)
+
+pub struct WsConn {
+    pub ws: tungstenite::WebSocket<TcpStream>,
+}
+
+impl WsConn {
+    pub fn connect(addr: SocketAddr) -> Option<WsConn> {
+        Self::connect_from(None, addr)
+    }
+
+    pub fn connect_from(local_ip: Option<IpAddr>, addr: SocketAddr) -> Option<WsConn> {
+        let s: TcpStream = match local_ip {
+            None => TcpStream::connect_timeout(&addr, Duration::from_secs(3)).ok()?,
+            Some(ip) => {
+                let domain = if addr.is_ipv4() { socket2::Domain::IPV4 } else { socket2::Domain::IPV6 };
+                let s = socket2::Socket::new(domain, socket2::Type::STREAM, Some(socket2::Protocol::TCP)).ok()?;
+                s.bind(&SocketAddr::new(ip, 0).into()).ok()?;
+                s.connect_timeout(&addr.into(), Duration::from_secs(3)).ok()?;
+                s.into()
+            }
+        };
+        s.set_nodelay(true).ok();
+        s.set_read_timeout(Some(Duration::from_secs(5))).ok();
+        let url = format!("ws://{}/", addr);
+        let (ws, _) = tungstenite::client(url, s).ok()?;
+        Some(WsConn { ws })
+    }
+
+    pub fn send_text(&mut self, t: String) -> bool {
+        self.ws.send(tungstenite::Message::text(t)).is_ok()
+    }
+
+    /// Next text message within `ms`, None on timeout / close
+    pub fn recv_text(&mut self, ms: u64) -> Option<String> {
+        self.ws.get_ref().set_read_timeout(Some(Duration::from_millis(ms.max(1)))).ok();
+        loop {
+            match self.ws.read() {
+                Ok(tungstenite::Message::Text(t)) => return Some(t.as_str().to_string()),
+                Ok(tungstenite::Message::Binary(b)) => return Some(String::from_utf8_lossy(&b).to_string()),
+                Ok(tungstenite::Message::Close(_)) => return None,
+                Ok(_) => continue,
+                Err(_) => return None,
+            }
+        }
+    }
+
+    /// true if the peer closed / reset the connection within `ms`
+    pub fn closed_within(&mut self, ms: u64) -> bool {
+        self.ws.get_ref().set_read_timeout(Some(Duration::from_millis(ms.max(1)))).ok();
+        loop {
+            match self.ws.read() {
+                Ok(tungstenite::Message::Close(_)) => return true,
+                Ok(_) => continue,
+                Err(tungstenite::Error::Io(e)) if e.kind() == std::io::ErrorKind::WouldBlock || e.kind() == std::io::ErrorKind::TimedOut => return false,
+                Err(_) => return true,
+            }
+        }
+    }
+
+    pub fn close_orderly(mut self) {
+        let _ = self.ws.close(None);
+        let _ = self.ws.flush();
+        // read until the close handshake completes or times out
+        self.ws.get_ref().set_read_timeout(Some(Duration::from_millis(300))).ok();
+        for _ in 0..5 {
+            if self.ws.read().is_err() {
+                break;
+            }
+        }
+    }
+
+    pub fn close_abrupt(self) {
+        // SO_LINGER 0: RST
+        let s = self.ws.get_ref();
+        let sock = socket2::SockRef::from(s);
+        let _ = sock.set_linger(Some(Duration::from_secs(0)));
+        drop(self);
+    }
+}
+
+pub fn id20(b: &[u8; 20]) -> String {
+    b.iter().map(|x| char::from(*x)).collect()
+}
